@@ -161,6 +161,27 @@ def oracle(case: dict):
             return None
         finally:
             shutil.rmtree(d, ignore_errors=True)
+    if kind == "order-expr":
+        # the order option changes the order of keys and nothing else: evaluated references and expressions have the values
+        # of the unordered read (also when a name is declared on more than one level)
+        d = Path(tempfile.mkdtemp(prefix="c15e_", dir=os.environ.get("VERIF_SCRATCH", "/var/tmp")))
+        try:
+            f = d / "src"
+            f.write_text(case["text"])
+            try:
+                ru = gen.plain(dict(dictIO.DictReader.read(f, comments=False)))
+                ro = gen.plain(dict(dictIO.DictReader.read(f, comments=False, order=True)))
+                rp = gen.plain(dict(dictIO.DictParser.parse(f, order=True, comments=False)))
+            except Exception as e:  # noqa: BLE001
+                return ("file-raises", f"read / parse with order=True raised {type(e).__name__}: {e}")
+            for name, r in (("read(order=True)", ro), ("parse(order=True)", rp)):
+                if not assoc_eq(r, ru):
+                    return ("order-assoc", f"{name} = {r!r}, the unordered read {ru!r}: the association differs")
+                if not is_sorted_deep(r):
+                    return ("order-unsorted", f"{name} = {r!r} is not in order")
+            return None
+        finally:
+            shutil.rmtree(d, ignore_errors=True)
     if kind == "parse-order":
         # the order option of parse: the dict parse() RETURNS is ordered at every level (and the file it wrote reads back to
         # the same association), with a fresh target and onto an existing one, in both modes
@@ -310,6 +331,15 @@ def run(ctx):
         if r:
             ctx.oracle_fail(c, r[0], r[1])
         ctx.count(("f", ext, wire.enc_tree(t)), not is_sorted_deep(t), "file" + (ext or ".native"))
+    # expressions under the order option, names declared on two levels
+    for i, text in enumerate(['tolerance  0.125;\nlimit  "$tolerance * 8";\nsolver { tolerance 0.5; steps 10; }\n',
+                              'n  4;\ncells  "$n * 100";\nzmesh { n 2; post { n 3; m "$n + 2"; } }\nalpha $n;\n',
+                              'b { k 7; }\na { k 1; }\nz  "$k * 2";\n', 'zz 1;\nm { zz 2; }\naa { zz 3; }\nr $zz;\nq "$zz + 0";\n']):
+        c = {"kind": "order-expr", "t": {}, "text": text}
+        r = oracle(c)
+        if r:
+            ctx.oracle_fail(c, r[0], r[1])
+        ctx.count(("oe", i), True, "order-expr")
     # the order option of parse (returned dict), fresh and existing target, both modes
     for i in range(ctx.n(40, 600)):
         t = gen.dom_tree(rng, max_nodes=rng.choice([6, 15]), max_depth=3, int_keys=0.0, key=tricky_key, leaf=lambda r: gen.dom_scalar(r))
